@@ -268,7 +268,23 @@ def convert_downreplay(s, rng):
 
 MODEL_CONVERTERS = {"DownReplay": convert_downreplay, "GossipStatus": convert_gossip, "BatchOpen": convert_batch, "StaleReconcile": convert_stale, "MonBroadcast": convert_monb, "DisComplete": convert_disc}
 # (each behaviour of these small models is run in several concrete variations)
-MODEL_CAP = {"DownReplay": 320}
+MODEL_CAP = {"DownReplay": 220}
+
+
+def _downreplay_replays(g):
+    """does the node die with a monitor write in flight (so that its restart replays it after the chain catch-up)?"""
+    infl = False
+    for st in g["steps"]:
+        if st["op"] == "build":
+            infl = st["inflight"]
+        elif st["op"] == "complete":
+            infl = False
+        elif st["op"] == "kill":
+            return infl
+    return False
+
+
+MODEL_PRIORITY = {"DownReplay": _downreplay_replays}
 MODEL_REPEAT = {"DownReplay": 1, "MonBroadcast": 6, "StaleReconcile": 2, "DisComplete": 3}
 
 
@@ -688,7 +704,13 @@ def run_check(pid, tier, seed, mc_cfgs, profiles, thorough_profiles, assumptions
     for mod, got in model_scripts.items():
         mcap = 1500 if thorough else MODEL_CAP.get(mod, 260)
         if len(got) > mcap:
-            got = rng.sample(got, mcap)
+            # behaviours that reach the model's central action (MODEL_PRIORITY) are all run, the rest are sampled
+            pri = MODEL_PRIORITY.get(mod, lambda g: False)
+            first = [g for g in got if pri(g)]
+            rest = [g for g in got if not pri(g)]
+            if len(first) > mcap:
+                first = rng.sample(first, mcap)
+            got = first + rng.sample(rest, min(len(rest), mcap - len(first)))
         made = [MODEL_CONVERTERS[mod](g, rng) for g in got for _ in range(MODEL_REPEAT.get(mod, 1))]
         made = [x for x in made if x]
         if not made:
